@@ -19,21 +19,29 @@ SUMMARY_KEYS = ["histories", "ops", "snapshots_compared", "algorithm_runs_on_use
 CRASH_IS_VIOLATION = False
 TIMEOUT = {"quick": 900, "thorough": 5400}
 ALG_OPS = ["Borda", "BordaBucket", "Copeland", "KwikSort", "PickAPerm", "BioConsert", "BioCo", "BioConsert[Borda]",
-           "BioConsert[Copeland,KwikSort]", "ParCons", "ParCons(BioConsert;0)", "ParCons(KwikSort;2)", "Pulp", "Exact"]
+           "BioConsert[Copeland,KwikSort]", "BioConsert[PickAPerm]", "BioConsert[PickAPerm,Borda]", "ParCons",
+           "ParCons(BioConsert;0)", "ParCons(KwikSort;2)", "ParCons(PickAPerm;0)", "Pulp", "Exact"]
 OTHER_OPS = ["kemeny_score", "description", "str", "parcons_partition", "parfront_partition", "unified_rankings",
              "unified_dataset", "sub_problem", "get_positions", "get_bucket_ids", "scheme_mul", "equivalence", "dataset_eq",
              "nickname", "score_candidate", "iterate"]
 
 
-def plan(tier, seed):
+def _plan(tier, seed):
     if tier == "quick":
         return [{"n_cases": 110, "mode": "A", "hashseed": i % 3} for i in range(8)]
     return [{"n_cases": 1600, "mode": "A", "hashseed": i % 4} for i in range(14)] + \
            [{"n_cases": 500, "mode": "AD", "hashseed": i} for i in range(2)]
 
+def plan(tier, seed):
+    """+ one shard running the repository's own tests under the monitors (vf/pytest_plugin.py)"""
+    shards = _plan(tier, seed)
+    if tier == "thorough":
+        shards.append({"kind": "repotests", "n_cases": 0})
+    return shards
+
 
 def gen_case(rng, ctx):
-    cls, ds = gen.dataset(rng, classes="D1 D2 D3 D3 D4 D6 D7 D9 D11", nmax=6, mmax=5)
+    cls, ds = gen.dataset(rng, classes="D1 D2 D3 D3 D4 D6 D7 D9 D11 D14 D14 D13", nmax=6, mmax=5)
     ds = libx.normalise_raw(ds)
     scls, sch = gen.scheme(rng, "S1 S1 S2 S3 S6")
     k = rng.randint(3, 12)
